@@ -137,6 +137,21 @@ CLAIMED = {
         "Trusted: pylsqpack. Hostile bytes are delivered as transport events, not through a lossy wire.",
         "DESIGN.md 7 C16",
     ),
+    "C18": (
+        "exploration",
+        "deterministic simulation: honest lossy runs with frequent connection-ID changes judged on the decrypted wire, "
+        "and a key-holding forger playing seeded NEW_CONNECTION_ID / RETIRE_CONNECTION_ID histories and probing every "
+        "issued CID after silencing the real peer",
+        "Honest: no packet is addressed to a peer CID after its retirement was announced, issued-and-unretired CIDs never "
+        "exceed the peer's limit, every owed RETIRE_CONNECTION_ID eventually reaches the peer (after loss) and retired "
+        "CIDs are replaced. Forged: seeded histories of NEW_CONNECTION_ID (any sequence number, retire-prior-to, "
+        "duplicates, gaps) and RETIRE_CONNECTION_ID; after the target acknowledged retire-prior-to N all its packets "
+        "carry a DCID of sequence >= N and RETIREs appear; CONNECTION_ID_LIMIT_ERROR exactly when the active set "
+        "exceeds 8; packets addressed to any issued, unretired CID are acknowledged.",
+        "Trusted: wire/, a small model of the active CID set (including a server following its peer's CID switch). "
+        "State at takeover is read once from the target.",
+        "DESIGN.md 7 C18",
+    ),
     "C19": (
         "exploration",
         "deterministic simulation: virtual-time asyncio event loop (BaseEventLoop subclass) with an in-memory lossy "
